@@ -22,7 +22,7 @@ def one(kind, d):
             return (kind, name, pid, "stale", "patch no longer applies on HEAD")
         env = dict(os.environ, VERIF_REPO=wt, VERIF_JOBS="5")
         p = subprocess.run([V + "/vcheck", pid], cwd=V, env=env, capture_output=True, text=True, timeout=5400)
-        m = re.search(r"violations=(\d+) known=(\d+)", p.stdout)
+        m = re.search(r"violations=(\d+) known=(\d+)", p.stdout + p.stderr)
         return (kind, name, pid, "exit %d" % p.returncode, "violations=%s" % (m.group(1) if m else "?"))
     except subprocess.TimeoutExpired:
         return (kind, name, pid, "timeout", "")
